@@ -129,6 +129,18 @@ pub fn scratch_dir() -> std::path::PathBuf {
     d
 }
 
+/// The disk routes need a writable scratch directory; without one the run
+/// is a machinery failure (exit 2), never a verdict about the library.
+pub fn scratch_usable() -> bool {
+    let p = scratch_dir().join("probe");
+    let ok = std::fs::write(&p, b"x").is_ok() && std::fs::read(&p).map(|v| v == b"x").unwrap_or(false);
+    let _ = std::fs::remove_file(&p);
+    if !ok {
+        eprintln!("vcheck: scratch directory {} is not writable (set TMPDIR)", scratch_dir().display());
+    }
+    ok
+}
+
 pub fn cleanup_scratch() {
     let _ = std::fs::remove_dir_all(scratch_dir());
 }
@@ -872,6 +884,9 @@ fn selftest(which: Which) -> (u64, u64) {
 
 pub fn check(which: Which, tier: Tier) -> i32 {
     let started = Instant::now();
+    if which == Which::C01 && !scratch_usable() {
+        return 2;
+    }
     let t = tables(tier);
     let us = units(which, tier, &t);
     let deadline = Some(started + std::time::Duration::from_secs(tier.pick(50, 1500)));
